@@ -65,6 +65,30 @@ def handle (fn : String) : Handler := fun a impl =>
         relSpec impl (out.size = n ∧ out.all (· < t) ∧ slotSpec k psi t out == padded) "slots of the encoding are the input (zero padded)"
       | none => "ERR:refused"
     some (fR (fun (o : Array Nat) => fList o.toList) (do let tb ← Drv.C09.mkTables k t; batchEncode tb v), spec)
+  | "galois_ckks", g :: pSpecial :: sc :: n :: qs :: t :: sk :: ntt :: cf :: polys :: "|" ::
+      sc2 :: n2 :: qs2 :: t2 :: sk2 :: ntt2 :: cf2 :: polys2 :: [] =>
+    -- CKKS rotation / conjugation at the integer level: phase(result) = sigma_g(phase(source)) + key-switch noise
+    let src := Drv.Sch.parseCt sc n qs t sk ntt cf polys
+    let dst := Drv.Sch.parseCt sc2 n2 qs2 t2 sk2 ntt2 cf2 polys2
+    let g := pNat g; let P := pNat pSpecial
+    match Drv.Sch.mkLevel src.scheme src.n src.qs src.t, Drv.Sch.mkLevel dst.scheme dst.n dst.qs dst.t with
+    | .ok ls, .ok ld =>
+      let Q := Spec.prodL src.qs
+      let N := src.n
+      let phs := Drv.Sch.exactPhase ls src.qs src.sk src.ct
+      let phd := Drv.Sch.exactPhase ld dst.qs dst.sk dst.ct
+      -- sigma_g on a centred integer polynomial
+      let sig : Array Int := (List.range N).foldl (fun (res : Array Int) i =>
+          let e := (i * g) % (2 * N)
+          if e < N then res.modify e (· + phs.getD i 0) else res.modify (e - N) (· - phs.getD i 0)) (Array.replicate N 0)
+      -- key-switch noise: sum over the k digits of (digit < q_max) * (error <= 21), N terms each, divided by P, plus rounding;
+      -- a NAF-composed rotation applies at most log2 N + 1 switches
+      let k := src.qs.length
+      let qmax := src.qs.foldl max 0
+      let B := (21 * N * k * ((qmax + P - 1) / P) + N + 2) * (Nat.log2 N + 2)
+      let ok := (List.range N).all fun j => (Spec.centred (Spec.imod (phd.getD j 0 - sig.getD j 0) Q) Q).natAbs ≤ B
+      some ("ok", relSpec "ok" (dst.qs = src.qs ∧ ok) "phase(result) = sigma_g(phase(source)) + key-switch noise")
+    | _, _ => some ("ok", "ERR:refused")
   | _, _ => none
 
 end Drv.C04
